@@ -1,11 +1,16 @@
 import PdeVerif.Json
 import PdeVerif.Model.Controller
+import PdeVerif.Model.StepMaps
 namespace PdeVerif.Drv.C07
-open Lean PdeVerif PdeVerif.Interrupts PdeVerif.Controller
+open Lean PdeVerif PdeVerif.Interrupts PdeVerif.Controller PdeVerif.StepMaps
 
 /-
 c07.run (also used by C08)
-{"mode":"Q"|"F", ["stepper":"exact","fuel":n,] "dt":x, "t_start":x, "t_end":x, "eps":x, "u0":x, "eq":"one"|"time"|"timeshift" (+"shift":x),
+{"mode":"Q"|"F", ["stepper":"exact","fuel":n,] "dt":x, "t_start":x, "t_end":x, "eps":x, "u0":x,
+ "eq":"one"|"time"|"timeshift" (+"shift":x)      -- the scheme's exact one-step map for u'=1, u'=t: u + dt*(t + shift)
+     |"hook" (+"a":x)                             -- u'=1 and a post-step hook with persistent data: data += 1; u += a*data
+     |"lin"|"lint" (+"a":x)                       -- u' = a*u, u' = a*u + t: the solver's own operations (Model/StepMaps.lean)
+ ["solver":"euler"|"runge-kutta"|"implicit"|"crank-nicolson"|"adams-bashforth", "cells":n, "maxiter":n, "maxerr2":x,]
  "trackers":[{"kind":"callback"|"storage"|"data",
               "sched":{"kind":"constant","dt":x,"t_start":null|x}
                      |{"kind":"logarithmic","dt_initial":x,"factor":x,"t_start":null|x}
@@ -14,7 +19,9 @@ c07.run (also used by C08)
                      |{"kind":"oracle","answers":[x|"inf"..]},
               "stops":[[call index,"S"|"F","msg"],..]}]}
 numbers x: "p/q" in mode Q, "b:<bits>" in mode F.
-answer: {"t_final","steps","state","initial","exit","stop_reason","successful","iters",
+the simulated state of the controller model is `SolverState K` (cell value, persistent stepper state, or a raised
+ConvergenceError); reported are the cell values.
+answer: {"t_final","steps","state","aux","initial","exit","stop_reason","successful","iters",
          "trace":[[tracker,t,u]..], "trackers":[{"calls","times","frames","finalized","due"}..]}
 -/
 
@@ -55,7 +62,7 @@ def parseStop (j : Json) : Except String (Nat × StopReq) := do
     | s => throw s!"bad stop kind {s}"
   | _ => throw "bad stop entry"
 
-def parseTracker (getK : Json → Except String K) (j : Json) : Except String (TrackerSpec K K) := do
+def parseTracker (getK : Json → Except String K) (j : Json) : Except String (TrackerSpec K (SolverState K)) := do
   let kind ← (match (← fldS j "kind") with
     | "callback" => pure Kind.callback
     | "storage" => pure Kind.storage
@@ -82,31 +89,59 @@ def runJson (getK : Json → Except String K) (putK : K → Json) (j : Json) : E
   let eps ← getK (← fld j "eps")
   let u0 ← getK (← fld j "u0")
   let eq ← fldS j "eq"
-  let step : K → K → K ← (match eq with
-    | "one" => pure (fun u _ => u + dt * ((1 : Nat) : K))
-    | "time" => pure (fun u t => u + dt * t)
+  let lift : (K → K → K) → SolverState K → K → SolverState K :=
+    fun g s t => s.map (fun p => (g p.1 t, p.2))
+  let solver := (match fldOpt j "solver" with | some (.str s) => s | _ => "euler")
+  let sch : Scheme ← (match solver with
+    | "euler" => pure Scheme.euler
+    | "runge-kutta" => pure Scheme.rk4
+    | "implicit" => pure Scheme.implicit
+    | "crank-nicolson" => pure Scheme.cn
+    | "adams-bashforth" => pure Scheme.ab2
+    | s => throw s!"unknown solver {s}")
+  let schemeOf : Rate K → Except String ((SolverState K → K → SolverState K) × SolverState K) := fun f => do
+    let p : Params K := { cells := ← fldN j "cells", maxiter := ← fldN j "maxiter",
+                          maxerr2 := ← getK (← fld j "maxerr2") }
+    pure (stepOf sch f p dt, initState sch f dt tStart u0)
+  let (step, s0) ← (match eq with
+    | "one" => pure (lift (fun u _ => u + dt * ((1 : Nat) : K)), some (u0, u0))
+    | "time" => pure (lift (fun u t => u + dt * t), some (u0, u0))
     | "timeshift" => do
       let c ← getK (← fld j "shift")
-      pure (fun u t => u + dt * (t + c))
+      pure (lift (fun u t => u + dt * (t + c)), some (u0, u0))
+    | "hook" => do
+      -- u' = 1 with a post-step hook that counts the steps in `post_step_data` (second component of the solver
+      -- state: it lives in `solver.info` between stepper calls): `data += 1; state += a * data`
+      let a ← getK (← fld j "a")
+      pure (fun s _ => s.map (fun p => let k := p.2 + ((1 : Nat) : K); (p.1 + dt * ((1 : Nat) : K) + a * k, k)),
+            some (u0, ((0 : Nat) : K)))
+    | "lin" => do schemeOf (rateLin (← getK (← fld j "a")))
+    | "lint" => do schemeOf (rateLinT (← getK (← fld j "a")))
     | s => throw s!"unknown equation {s}")
   let specs ← getL (parseTracker getK) (← fld j "trackers")
   let exact := (match fldOpt j "stepper" with | some (.str "exact") => true | _ => false)
   -- exact steppers (ScipySolver): the compared state is that of u' = 1, `flow u t s = u + (s - t)`
   let fuel : Nat ← (if exact then fldN j "fuel" else pure 0)
   let r := if exact then
-      runExactSpec dt tStart tEnd eps (fun u t s => u + (s - t)) u0 specs fuel
-    else runSpec dt tStart tEnd eps step u0 specs
+      runExactSpec dt tStart tEnd eps (fun s t e => s.map (fun p => (p.1 + (e - t), p.2))) s0 specs fuel
+    else runSpec dt tStart tEnd eps step s0 specs
+  let putS : SolverState K → Json := fun s => match s with
+    | none => Json.str "ConvergenceError"
+    | some p => putK p.1
+  let putA : SolverState K → Json := fun s => match s with
+    | none => Json.str "ConvergenceError"
+    | some p => putK p.2
   if r.trackers.any (fun tr => isBroken tr.sched) then throw "geometric search out of fuel"
   let putO : Option K → Json := fun o => match o with | none => Json.str "inf" | some x => putK x
   pure (Json.mkObj [
-    ("t_final", putK r.tFinal), ("steps", toJson r.steps), ("state", putK r.state),
-    ("initial", putK r.initial), ("exit", Json.str (exitTag r.exit)),
+    ("t_final", putK r.tFinal), ("steps", toJson r.steps), ("state", putS r.state),
+    ("aux", putA r.state), ("initial", putS r.initial), ("exit", Json.str (exitTag r.exit)),
     ("stop_reason", Json.str r.exit.reason), ("successful", toJson r.exit.successful),
     ("iters", toJson r.iters),
-    ("trace", Json.arr (r.trace.map (fun e => Json.arr #[toJson e.1, putK e.2.1, putK e.2.2])).toArray),
+    ("trace", Json.arr (r.trace.map (fun e => Json.arr #[toJson e.1, putK e.2.1, putS e.2.2])).toArray),
     ("trackers", Json.arr (r.trackers.map (fun tr => Json.mkObj [
       ("calls", toJson tr.calls), ("times", Json.arr (tr.times.map putK).toArray),
-      ("frames", Json.arr (tr.frames.map putK).toArray), ("finalized", toJson tr.finalized),
+      ("frames", Json.arr (tr.frames.map putS).toArray), ("finalized", toJson tr.finalized),
       ("due", putO tr.due)])).toArray)])
 
 end
